@@ -269,6 +269,18 @@ pub enum Op {
     Dims,
 }
 
+/// The statement speaks of width, height and emptiness. stride() and
+/// is_contiguous() follow from the geometry only for views of two or more
+/// non-empty rows (row y+1 starts stride() elements after row y; contiguous
+/// iff stride == width); for one-row and empty views the stride addresses
+/// nothing and is left free (a one-row view may report stride == width).
+fn shape_norm(o: &Obs) -> Obs {
+    match o {
+        Obs::Shape(w, h, e, _, _) if *h < 2 || *w == 0 => Obs::Shape(*w, *h, *e, 0, true),
+        other => other.clone(),
+    }
+}
+
 #[derive(Clone, Debug, PartialEq)]
 pub enum Obs {
     Val(Option<u64>),
@@ -614,7 +626,7 @@ impl Hist {
                         _ => false,
                     }
                 } else {
-                    g == e
+                    shape_norm(g) == shape_norm(e)
                 }
             }
         };
@@ -638,7 +650,7 @@ impl Hist {
             });
             let same = match (&got, &got_ro) {
                 (Ok(_), Ok(Obs::Rows(rows))) if zero_w_rows => rows.len() <= h as usize && rows.iter().all(|r| r.is_empty()),
-                (Ok(a), Ok(b)) => a == b,
+                (Ok(a), Ok(b)) => shape_norm(a) == shape_norm(b),
                 (Err(_), Err(_)) => true,
                 _ => false,
             };
